@@ -336,7 +336,7 @@ def _r4_turns(ctx):
 
 def _r1_r2_kernels(ctx):
     prog = ctx.prog
-    ctx.rule("R-C02-1", floor=8, what="closing guards equal the textbook predicates on every weak ordering")
+    ctx.rule("R-C02-1", floor=5, what="closing guards equal the textbook predicates on every weak ordering")
     ctx.rule("R-C02-2", floor=4, what="recorded pair = popped pair, indices from the same slots")
     for k in kernels(prog):
         br = closing_branch(k)
@@ -468,7 +468,57 @@ def _py_atomizer(env, extra=None, alias=None):
     return atom
 
 
+def _fkm_turn_model(ctx, prog, rule, what):
+    """the per-turn body of FKMDetector.process, executed abstractly against the Clormann-Seeger case table (sa/hcmmodel.py);
+    used when the body is not in the shape the statement-reading rules understand"""
+    from ..hcmmodel import check_turn_loop
+    from ..inline import inlined
+    f0 = prog.func("pylife.stress.rainflow.fkm:FKMDetector.process")
+    fi = inlined(prog, f0, skip=("_new_turns", "_flush_new_turns", "_preserve_start"))
+    loops = [s_ for s_ in fi.node.body if isinstance(s_, ast.For)]
+    if len(loops) != 1 or not isinstance(loops[0].target, ast.Name):
+        raise AnalysisError("FKMDetector.process: for loop over the turns not found")
+    mir = {}
+    for s_ in fi.node.body:
+        if isinstance(s_, ast.Assign) and len(s_.targets) == 1 and isinstance(s_.targets[0], ast.Name) and is_self_attr(s_.value):
+            mir[s_.value.attr] = s_.targets[0].id
+    rv = [c_ for c_ in calls_in(fi.node) if isinstance(c_.func, ast.Attribute) and c_.func.attr == "record_values" and len(c_.args) == 2
+          and all(isinstance(a_, ast.Name) for a_ in c_.args)]
+    if "_ir" not in mir or "_max_turn" not in mir or len(rv) != 1:
+        raise AnalysisError("FKMDetector.process: locals mirroring self._ir / self._max_turn or the record_values call not found")
+    roles = {"cur": loops[0].target.id, "mx": mir["_max_turn"], "stack": "_residuals", "ir": mir["_ir"]}
+    n, bad, preds = check_turn_loop(fi, loops[0], roles, _stack_aliases(fi.node), (rv[0].args[0].id, rv[0].args[1].id))
+    odd = [k for k in preds if "?" in k]
+    if bad is None and not odd:
+        ctx.holds(f0, f0.node, "%s: the per-turn loop performs the Clormann-Seeger case analysis on all %d abstract scenarios (stack "
+                  "depth relative to the primary path, new maximum, closing decision / inner loop per attempt): loops recorded from "
+                  "the two top residuals and removed, one push per turn, running maximum updated" % (what, n), rule=rule)
+    elif bad is None:
+        ctx.violated(f0, f0.node, "%s: HCM predicate %s deviates from the rule's form" % (what, [preds[k] for k in odd]), rule=rule,
+                     text="fkm predicate")
+    else:
+        d0, sc, got, want = bad
+        ctx.violated(f0, f0.node, "%s: with %d residuals above the primary path, new maximum %s, current extent smaller %s, closed loop "
+                     "inside the seen range %s the per-turn loop does %s (stack %+d, ir %+d); the Clormann-Seeger rule requires %s "
+                     "(stack %+d, ir %+d)" % (what, d0, sc["NEWMAX"], sc["SMALLER"], sc["INNER"], got[0], got[1], got[2], want[0], want[1],
+                                            want[2]), rule=rule, text="fkm turn loop " + what)
+
+
 def _r1_r2_fkm(ctx):
+    try:
+        _r1_r2_fkm_statements(ctx)
+    except AnalysisError as e:
+        # shape not understood: decide closing guard, continue-closing test, primary-path counter, recorded slots and pops by
+        # abstract execution; if that is not possible either, the rule stays undecided with the original reason
+        try:
+            _fkm_turn_model(ctx, ctx.prog, "R-C02-1", "closing / primary-path decisions")
+            ctx.holds("pylife.stress.rainflow.fkm:FKMDetector.process", None,
+                      "closed cycle records (slot -2, slot -1) and removes exactly those two (abstract execution)", rule="R-C02-2")
+        except AnalysisError as e2:
+            raise AnalysisError("%s | model: %s" % (e, e2))
+
+
+def _r1_r2_fkm_statements(ctx):
     prog = ctx.prog
     fi = prog.func("pylife.stress.rainflow.fkm:FKMDetector.process")
     loop = [s for s in fi.node.body if isinstance(s, ast.For)]
